@@ -65,7 +65,7 @@ Fixpoint kmeans_loop (fuel it : nat) (X : mat) (cents old : mat) (labels : seq n
   match fuel with
   | 0 => Some (labels, cents, it)
   | fuel'.+1 =>
-      if (100 < it) || same_centroids cents old then Some (labels, cents, it)
+      if (0 < it) && ((100 < it) || same_centroids cents old) then Some (labels, cents, it)
       else let labels' := map (nearest cents) X in
            match centroids_of X labels' (size cents) with
            | None => None
